@@ -192,7 +192,7 @@ def parse_dump(s):
     return nodes
 
 
-def dumps_equal_tol(a, b, ulps=4):
+def dumps_equal_tol(a, b, ulps=64):
     """structure equal, constants within a few ulps (transcendental folding)"""
     from common import ulp_diff32
     na, nb = parse_dump(a), parse_dump(b)
@@ -349,6 +349,16 @@ def value_ok(impl_hex, mline):
     if not math.isfinite(v):
         return False, False
     tol = 2e-4 * (1.0 + mx) + 200 * sens
+    # numerically fragile points (a discontinuous operation - mod, compare, a min/max tie - whose
+    # arguments do not depend on the perturbed inputs, cos of a huge constant, ...): the model's own
+    # binary32 run disagrees with its binary64 run, or moves under one-ulp rounding noise
+    v32u = h2f(f[2])
+    if math.isfinite(v32u) and abs(v32u - ref) > tol:
+        return True, True
+    if len(f) > 6:
+        noise = h2d(f[6])
+        if not (16 * noise <= tol):
+            return True, True
     return abs(v - ref) <= tol, False
 
 
